@@ -76,7 +76,7 @@ theorem drain_response (c : Cfg α) (laws : CodecLaws c.cd) (respStream : Bool) 
     d.status = 200 ∧ d.headers = Metadata.responseWire sc.initMd ∧
     d.trailers = some (trailersOfSt c sc (owedOf respStream sc)) ∧
     PhaseOk cfg Dec.init ∧ CleanEvs (respEvs d) = true ∧
-    specFrom c.cd cfg Dec.init (dataOf (respEvs d)) = (respMsgs respStream sc, .clean) ∧
+    specFrom c.cd cfg Dec.init (accepted cfg (respEvs d)) = (respMsgs respStream sc, .clean) ∧
     endTr Dec.init.trailers (respEvs d) = some (trOf (trailersOfSt c sc (owedOf respStream sc))) ∧
     (respEvs d).length < c.fuel ∧ (respMsgs respStream sc).length < c.fuel := by
   obtain ⟨h1, h2, h3, h4⟩ := handlerResponse_ok c n respStream sc hearly ok.msgs hn
@@ -90,7 +90,8 @@ theorem drain_response (c : Cfg α) (laws : CodecLaws c.cd) (respStream : Bool) 
     cases respStream <;> simp [respMsgs, List.length_take]; omega
   have htr : d.trailers = some (trailersOfSt c sc (owedOf respStream sc)) := by rw [t4, h4]
   refine ⟨by rw [t1, h1], by rw [t2, h2], htr, by simp [PhaseOk, Dec.init], clean_respEvs d, ?_, ?_, ?_, by omega⟩
-  · rw [dataOf_respEvs, t3, h3]
+  · have h200 : d.status = 200 := by rw [t1, h1]
+    rw [accepted_keep (by simp [DecCfg.skipsBody, h200]), dataOf_respEvs, t3, h3]
     exact spec_wire c.cd laws _ _ hmsgs
   · simp only [Dec.init]
     rw [endTr_respEvs, htr]; rfl
@@ -223,12 +224,12 @@ theorem request_delivered (c : Cfg α) (laws : CodecLaws c.cd) (r : CallReq α)
     (nc : Nat) (hnc : r.msgs.length + 1 < nc)
     (d : ReqDelivery) (ht : ReqTransports (clientRequest c nc r) d) :
     d.headers = Metadata.requestWire r.md ∧ PhaseOk reqDecCfg Dec.init ∧ CleanEvs (reqEvs d) = true ∧
-    specFrom c.cd reqDecCfg Dec.init (dataOf (reqEvs d)) = (r.msgs.msgs, .clean) ∧
+    specFrom c.cd reqDecCfg Dec.init (accepted reqDecCfg (reqEvs d)) = (r.msgs.msgs, .clean) ∧
     endTr Dec.init.trailers (reqEvs d) = none ∧ (reqEvs d).length = d.chunks.length := by
   obtain ⟨h1, h2, _⟩ := clientRequest_ok c nc r hm hnc
   obtain ⟨t1, t2, _⟩ := ht
   refine ⟨by rw [t1, h1], by simp [PhaseOk, Dec.init], clean_reqEvs d, ?_, endTr_reqEvs d, by simp [reqEvs, length_chunkEvs]⟩
-  rw [dataOf_reqEvs, t2, h2]
+  rw [accepted_keep (by rfl), dataOf_reqEvs, t2, h2]
   exact spec_wire c.cd laws .request _ hm
 
 theorem endOf_request (tr : Option Tr) : endOf reqDecCfg tr = .done := by
